@@ -98,6 +98,12 @@ func numConds() []bs.NumericCondition {
 		bs.NumericBetween(0, 1), bs.NumericBetween(1, 0), bs.NumericBetween(math.MinInt64, -1), bs.NumericBetween(2, math.MaxInt64),
 		bs.NumericNotBetween(0, 1), bs.NumericNotBetween(1, 0), bs.NumericNotBetween(math.MinInt64, math.MaxInt64),
 		bs.NumericCondition{Operator: "LIKE", Value: 1})
+	// lists as a caller may write them in a struct literal or receive them from JSON: any
+	// order, repeats, more than two values
+	in, notIn := bs.NumericIn(0).Operator, bs.NumericNotIn(0).Operator
+	for _, vs := range [][]int64{{2, 0}, {5, 1, -1}, {math.MaxInt64, 0, math.MinInt64}, {1, 1, 0}, {9, 2, 5, -2}} {
+		cs = append(cs, bs.NumericCondition{Operator: in, Values: vs}, bs.NumericCondition{Operator: notIn, Values: vs})
+	}
 	return cs
 }
 
@@ -106,6 +112,7 @@ func strConds() []bs.StringCondition {
 		bs.PartitionEquals("pa"), bs.PartitionNotEquals("pa"), bs.PartitionIn("pa", "pb"), bs.PartitionIn(), bs.PartitionNotIn("pb"),
 		bs.PartitionGreaterThan("pa"), bs.PartitionGreaterThanEqual("pb"), bs.PartitionLessThan("pb"), bs.PartitionLessThanEqual("pa"),
 		bs.PartitionBetween("pa", "pb"), bs.PartitionBetween("pb", "pa"), bs.PartitionNotBetween("pa", "pa"), bs.PartitionEquals(""),
+		{Operator: bs.PartitionIn("x").Operator, Values: []string{"pb", "zz", "pa", ""}}, {Operator: bs.PartitionNotIn("x").Operator, Values: []string{"pb", "", "pa"}},
 		{Operator: "LIKE", Value: "pa"},
 	}
 }
